@@ -27,12 +27,12 @@ def run(repo: Repo, chk: Check):
                       "prefix ends in a digit (so two calls can never return the same name)", floor=3)
     chk.rule("R05.f", "remove_labels maps a label to the index of the instruction that follows it and substitutes every label in "
                       "every remaining line with the same pattern for search and replacement", floor=4)
-    r05a(repo, chk)
-    r05b(repo, chk)
-    rule_loop_labels(repo, chk, "R05.c")
-    rule_function_labels(repo, chk, "R05.d")
-    r05e(repo, chk)
-    r05f(repo, chk)
+    chk.guarded(r05a, repo, chk)
+    chk.guarded(r05b, repo, chk)
+    chk.guarded(rule_loop_labels, repo, chk, "R05.c")
+    chk.guarded(rule_function_labels, repo, chk, "R05.d")
+    chk.guarded(r05e, repo, chk)
+    chk.guarded(r05f, repo, chk)
 
 
 # ---------------------------------------------------------------------- alphabet
